@@ -41,7 +41,15 @@ function norm(n) {
     case 'UnaryExpression': return N('un', n.operator, [norm(n.argument)]);
     case 'UpdateExpression': return N(n.prefix ? 'un' : 'post', n.operator, [norm(n.argument)]);
     case 'CallExpression': return N('call', '', [norm(n.callee)].concat(n.arguments.map(norm)));
-    case 'MemberExpression': return N(n.computed ? 'idx' : 'mem', '', [norm(n.object), norm(n.property)]);
+    case 'MemberExpression': {
+      // xjs represents the property names true / false / null by their literal nodes
+      let prop = norm(n.property);
+      if (!n.computed && n.property.type === 'Identifier') {
+        if (n.property.name === 'true' || n.property.name === 'false') prop = N('bool', n.property.name, []);
+        if (n.property.name === 'null') prop = N('null', '', []);
+      }
+      return N(n.computed ? 'idx' : 'mem', '', [norm(n.object), prop]);
+    }
     case 'ArrayExpression': return N('arr', '', n.elements.map(norm));
     case 'ObjectExpression': {
       const c = [];
